@@ -401,12 +401,12 @@ PROPS = {
         "fuzz": [{"target": "FuzzC12", "seconds": 600}],
     },
     "C13": {
-        "pkg": "c13", "needs_gw": False, "level": "exploration",
+        "pkg": "c13", "needs_gw": True, "level": "exploration",
         "technique": "property-based testing (rapid): grammar-generated Range headers against an RFC 7233 reference model, parser-level and end-to-end",
         "level_text": ("Generated-input search: every Range string class of the quantifier x object sizes incl. 0 and 1 is compared "
                        "with a reference model of the statement, both on the exported parser and through the full request path "
                        "(status, Content-Range, Content-Length, body bytes). Exploration, not proof: absence of violations is only "
-                       "established for the cases generated. Also: a directory object (zero bytes, GET and HEAD), objects with text / json content types and requests with Accept-Encoding (no Content-Encoding may appear)."),
+                       "established for the cases generated. Also: a directory object (zero bytes, GET and HEAD), objects with text / json content types and requests with Accept-Encoding (no Content-Encoding may appear). One case in eight is asked of a gateway with the s3 backend (two real processes: proxy in front of a posix gateway holding the same objects)."),
         "level_note": "trusts the harness' own SigV4 client and the in-process wiring shim (copied from runGateway); model/rangespec.go states which answers are accepted where the statement leaves a choice",
         "rule": ("Range strings drawn from a grammar (a-b, a-, -n, multi, reversed, huge, signs, white space, "
                  "other units, garbage) x object sizes {0,1,2,3,10,4096,70001,(A: any <=100000)}; layer A calls "
